@@ -356,4 +356,119 @@ theorem response_wire_eq_http (cfg : Config) (cache : PageCache) (cs : Case) (hw
   refine ⟨⟨w1, w2, w3, w4⟩, extras, enc, by rw [w5, hrun], ?_⟩
   rw [w5, hrun, h2, hbody]
 
+/-! ### after the end has been announced -/
+
+/-- whatever is done to a device that has announced the end and handed everything over — flushes, `setbuf`,
+buffering mode, in any number and order — sends no byte and announces nothing again -/
+theorem Dev.run_sealed : ∀ (ops : List DevOp) (d : Dev) (k : Trace) (inp : Bytes), d.Inv k inp → Sealed d →
+    k.bytes = filterOf d.rawMode inp → (∀ op ∈ ops, op.data = []) →
+    (Dev.run (d, k) ops).1.Inv (Dev.run (d, k) ops).2 inp ∧ Sealed (Dev.run (d, k) ops).1 ∧
+    (Dev.run (d, k) ops).2.eofs = k.eofs ∧ (Dev.run (d, k) ops).2.bytes = filterOf d.rawMode inp ∧
+    (Dev.run (d, k) ops).1.rawMode = d.rawMode := by
+  intro ops
+  induction ops with
+  | nil => intro d k inp hi hs hb _; exact ⟨hi, hs, rfl, hb, rfl⟩
+  | cons op ops ih =>
+    intro d k inp hi hs hb h
+    have ⟨h1, s1⟩ := Dev.step_spec d k inp op hi
+    rw [h op (by simp), List.append_nil] at h1
+    have ⟨hs1, he1⟩ := hs.step s1
+    have hb1 : (Dev.step (d, k) op).2.bytes = filterOf (Dev.step (d, k) op).1.rawMode inp := by
+      obtain ⟨e, he⟩ := s1.extends
+      obtain ⟨fed1, _, _, f3, f4, _⟩ := h1
+      obtain ⟨Y, hY⟩ := filterOf_append (Dev.step (d, k) op).1.rawMode fed1 ((Dev.step (d, k) op).1.vec.take (Dev.step (d, k) op).1.pos)
+      rw [f3] at hY
+      rw [s1.mode] at hY f4 ⊢
+      have hk : (Dev.step (d, k) op).2.bytes = filterOf d.rawMode inp ++ e.bytes := by rw [he, Trace.bytes_append, hb]
+      have hlen := congrArg List.length hY
+      rw [← f4, hk] at hlen
+      simp only [List.length_append] at hlen
+      have he0 : e.bytes = [] := List.eq_nil_of_length_eq_zero (by omega)
+      rw [hk, he0, List.append_nil]
+    have ⟨i1, i2, i3, i4, i5⟩ := ih _ _ inp h1 hs1 hb1 (fun o ho => h o (by simp [ho]))
+    simp only [Dev.run, List.foldl_cons] at i1 i2 i3 i4 i5 ⊢
+    exact ⟨i1, i2, i3.trans he1, by rw [i4, s1.mode], i5.trans s1.mode⟩
+
+/-! ### `HttpReady` from the header set -/
+
+/-- the `Status` entry, or the default `200 Ok` -/
+def Headers.statusValue (H : Headers) : Bytes :=
+  match mapFind (b Gen.statusName) H.map with
+  | some (_, v) => v
+  | none => b Gen.defaultStatus
+
+/-- the status line `format_http_headers` writes -/
+def httpStatusLine (http11 : Bool) (H : Headers) : Bytes :=
+  b Gen.httpPrefix ++ b (if http11 then Gen.httpVersion11 else Gen.httpVersion10) ++ b Gen.httpVersionSep ++ H.statusValue
+
+/-- what the application's header set must look like for an HTTP response to be well formed: no CR in the
+status or in any `Name: value` line / added header / cookie, no Transfer-Encoding of its own, and a
+Content-Length — if it sets one — that is the only one and a plain decimal number.  (cppcms does not
+validate header values; injecting CR or a second Content-Length is the application's responsibility.) -/
+structure HttpHeadersOk (H : Headers) : Prop where
+  status : ∀ c ∈ H.statusValue, c ≠ 13
+  lines : ∀ l ∈ H.lines (some (b Gen.statusName)), LineOk l
+  noTE : Spec.fieldValues Spec.sTransferEncoding (H.lines (some (b Gen.statusName))) = []
+  cl : (H.get sContentLengthName = [] ∧ Spec.fieldValues Spec.sContentLength (H.lines (some (b Gen.statusName))) = []) ∨
+       (H.get sContentLengthName ≠ [] ∧
+        Spec.fieldValues Spec.sContentLength (H.lines (some (b Gen.statusName))) = [H.get sContentLengthName] ∧
+        Spec.parseDecNum (H.get sContentLengthName) = some (atoll (H.get sContentLengthName)))
+
+theorem httpReady_of_headers (a c : Bool) (H : Headers) (ok : HttpHeadersOk H) :
+    HttpReady (({ isHttp11 := a, clientKeepAlive := c } : HttpSt).setHeaders H) (httpStatusLine a H)
+      (H.lines (some (b Gen.statusName))) where
+  fresh := rfl
+  hdr := by
+    show H.fmtHttp (b (if a then Gen.httpVersion11 else Gen.httpVersion10)) false = _
+    unfold Headers.fmtHttp httpStatusLine Headers.statusValue
+    rw [joinLines_cons, fmtLines_eq, lit_headerSep_lineEnd.1]
+    cases mapFind (b Gen.statusName) H.map <;> simp [List.append_assoc]
+  status := by
+    unfold httpStatusLine
+    have : b Gen.httpPrefix = [72, 84, 84, 80, 47] := by decide
+    rw [this]; rfl
+  ok := by
+    intro l hl
+    rcases List.mem_cons.1 hl with h | h
+    · subst h
+      refine ⟨by unfold httpStatusLine; have : b Gen.httpPrefix = [72, 84, 84, 80, 47] := by decide
+                 rw [this]; simp, ?_⟩
+      intro x hx
+      unfold httpStatusLine at hx
+      simp only [List.mem_append] at hx
+      rcases hx with ((hx | hx) | hx) | hx
+      · have : ∀ y ∈ b Gen.httpPrefix, y ≠ 13 := by decide
+        exact this x hx
+      · have : ∀ y ∈ b (if a then Gen.httpVersion11 else Gen.httpVersion10), y ≠ 13 := by cases a <;> decide
+        exact this x hx
+      · have : ∀ y ∈ b Gen.httpVersionSep, y ≠ 13 := by decide
+        exact this x hx
+      · exact ok.status x hx
+    · exact ok.lines l h
+  noTE := ok.noTE
+  cl := by
+    rcases ok.cl with ⟨h1, h2⟩ | ⟨h1, h2, h3⟩
+    · left
+      refine ⟨?_, h2⟩
+      show (if (H.get sContentLengthName).isEmpty then none else some (atoll (H.get sContentLengthName))) = none
+      rw [h1]; rfl
+    · right
+      refine ⟨atoll (H.get sContentLengthName), H.get sContentLengthName, ?_, h2, h3⟩
+      show (if (H.get sContentLengthName).isEmpty then none else some (atoll (H.get sContentLengthName))) = _
+      have : (H.get sContentLengthName).isEmpty = false := by
+        cases hx : H.get sContentLengthName with
+        | nil => exact absurd hx h1
+        | cons _ _ => rfl
+      rw [this]; rfl
+  written0 := rfl
+  version := by
+    intro ha
+    have ha' : a = true := ha
+    subst ha'
+    unfold httpStatusLine
+    have : b Gen.httpPrefix = [72, 84, 84, 80, 47] := by decide
+    rw [this]
+    have : b (if true = true then Gen.httpVersion11 else Gen.httpVersion10) = [49, 46, 49] := by decide
+    rw [this]; rfl
+
 end Cppcms.C03
